@@ -211,19 +211,20 @@ def enabled (s : State ID) : List (Action ID) :=
   ++ s.outstanding.map Action.work
   ++ s.done.map (fun d => Action.recv d.1 d.2)
 
+def pick (choices : List Nat) : Nat × List Nat :=
+  match choices with
+  | [] => (0, [])
+  | k :: rest => (k, rest)
+
 def run (cfg : Cfg ID) (c : Consumer ID) : Nat → List Nat → State ID → State ID
   | 0, _, s => s
   | fuel + 1, choices, s =>
     match enabled s with
     | [] => s
     | a :: as =>
-      let (k, rest) := match choices with
-        | [] => (0, [])
-        | k :: rest => (k, rest)
-      let act := ((a :: as)[k % (as.length + 1)]?).getD a
-      match step cfg c act s with
+      match step cfg c (((a :: as)[(pick choices).1 % (as.length + 1)]?).getD a) s with
       | none => s
-      | some s' => run cfg c fuel rest s'
+      | some s' => run cfg c fuel (pick choices).2 s'
 
 /-! ### Executable statement of the property -/
 
